@@ -29,7 +29,7 @@ Print Assumptions C02_final_status_spec.
 (* On the protocol state: the report is a permutation of the statuses handed over by distinct finished invocations. *)
 Theorem C02_status_sound : forall beh e0 roots c0 s, roots_ok roots -> reach beh e0 roots c0 s ->
   Permutation (collected s) (sent_msgs (tasks s)) /\
-  forall t m, In t (tasks s) -> fin_of t = Some (FSent m) -> snd (traverse beh (tpipe t) 0%N (tall t) e0) = Some m.
+  forall t m, In t (tasks s) -> fin_of t = Some (FSent m) -> snd (traverse beh (tpipe t) 0%N (tall t) (e0 (tpipe t))) = Some m.
 Proof. exact status_sound. Qed.
 Print Assumptions C02_status_sound.
 
